@@ -461,8 +461,8 @@ def port_link( pl ):
         pl["port"]		= int( pl["port"] )
     except:
         raise AssertionError( "port/link: port must be an integer" )
-    assert pl["port"] > 0, \
-        "port/link: port number must be > 0"
+    assert 0 < pl["port"] <= 0xFFFF, \
+        "port/link: port number must be in range 1-65535"
 
     try:
         pl["link"]		= int( pl["link"] )
@@ -470,7 +470,10 @@ def port_link( pl ):
         try:
             pl["link"]		= str( misc.ip( pl["link"] ))
         except Exception as exc:
-            raise AssertionError( "port/link: %r: %s" % ( pl["Link"], exc ))
+            raise AssertionError( "port/link: %r: %s" % ( pl["link"], exc ))
+    else: # A numeric link address is carried in a single octet
+        assert 0 <= pl["link"] <= 0xFF, \
+            "port/link: link number must be in range 0-255"
     return pl
 
 
